@@ -5,6 +5,8 @@ use std::cell::RefCell;
 pub mod c08;
 pub mod c09;
 pub mod c13;
+pub mod c16;
+pub mod c17;
 pub mod dump;
 pub mod engine;
 pub mod faults;
